@@ -22,13 +22,16 @@ def _rep(s):
 
 
 def schema_family(rng, kind=None):
-    kind = kind or rng.choice(["intkey", "composite", "strkey", "random", "intkey", "composite", "widerange", "pklast", "pkgap", "i32key"])
+    kind = kind or rng.choice(["intkey", "composite", "strkey", "random", "intkey", "composite", "widerange", "pklast", "pkgap", "i32key", "casecols"])
     if kind == "intkey":
         return [mk("K", "i16", pk=True), mk("V", ("str", 10), null=True), mk("N", "i32", null=True)]
     if kind == "composite":
         return [mk("A", "i16", pk=True), mk("B", ("str", 4), pk=True, null=True), mk("C", "i16", null=True)]
     if kind == "strkey":
         return [mk("S", ("str", 6), pk=True), mk("X", "i32", null=True, rng=(-5, 100))]
+    if kind == "casecols":
+        # column names are case-sensitive: two columns may differ in letter case only
+        return [mk("K", "i16", pk=True), mk("val", "i32", null=True), mk("Val", "i32", null=True), mk("VAL", ("str", 6), null=True)]
     if kind == "pklast":
         # the key column is not the leading column: keys are the cells at the key positions, not a prefix of the row
         return [mk("L", ("str", 8), null=True), mk("Id", "i16", pk=True)]
@@ -535,4 +538,24 @@ def scenario_histories(rng, raw=False):
         h.update("T", ups=[("N", 1), ("N", 2), ("S", "x"), ("N", 9)], cond=K(2)); step(h, j)   # all valid: the last one wins
         h.update("T", ups=[("K", 2), ("K", 3)], cond=K(1)); step(h, j)                  # key assigned twice: 1 -> 3
         out.append(("repeat-assign-%d" % j, h))
+        # a batch whose LATER rows have the wrong number of values (too many, too few, none)
+        h = History(rng, j)
+        h.add_table("T", [mk("K", "i16", pk=True), mk("V", ("str", 6), null=True)])
+        h.insert("T", rows=[[1, "One"], [2, "Two", "extra"]]); step(h, j)
+        h.insert("T", rows=[[3, "Thr"], [4]]); step(h, j)
+        h.insert("T", rows=[[5, "Fiv"], []]); step(h, j)
+        h.insert("T", rows=[[6, "Six"], [7, "Sev"], [8, "Eig", 9, 10]]); step(h, j)
+        h.insert("T", rows=[[9, "Nin"], [10, "Ten"]]); step(h, j)
+        out.append(("ragged-batch-%d" % j, h))
+        # a key string that sits in the pool twice (its first slot was freed and reused before the existing entry):
+        # key collisions are collisions of VALUES
+        h = History(rng, j)
+        h.add_table("T", [mk("K", ("str", 8), pk=True), mk("V", ("str", 8), null=True)])
+        h.insert("T", rows=[["a", "x"], ["b", None]]); step(h, j)
+        h.update("T", ups=[("V", None)], cond=("bin", "eq", ("col", "K"), ("lit", "a"))); step(h, j)
+        h.update("T", ups=[("V", "b")], cond=("bin", "eq", ("col", "K"), ("lit", "a"))); step(h, j)
+        h.update("T", ups=[("K", "b")], cond=("bin", "eq", ("col", "K"), ("lit", "a"))); step(h, j)   # must be refused
+        h.insert("T", rows=[["b", "again"]]); step(h, j)                                            # must be refused
+        h.update("T", ups=[("K", "c")], cond=("bin", "eq", ("col", "K"), ("lit", "a"))); step(h, j)
+        out.append(("dup-pool-key-%d" % j, h))
     return out
